@@ -428,7 +428,8 @@ func (r *rewriter) rangeOverMap(n *ast.RangeStmt) ast.Stmt {
 	if blank(n.Key) {
 		body.List = append(body.List, &ast.AssignStmt{Lhs: []ast.Expr{ast.NewIdent("_")}, Tok: token.ASSIGN, Rhs: []ast.Expr{k}})
 	}
-	body.List = append(body.List, n.Body.List...)
+	// the original body keeps its own scope (it may redeclare key/value)
+	body.List = append(body.List, &ast.BlockStmt{List: n.Body.List})
 	inner := &ast.RangeStmt{Key: ast.NewIdent("_"), Value: k, Tok: token.DEFINE, X: call(vsSel("MapKeys"), m), Body: body}
 	// The outer one-iteration loop keeps the statement a `for` (labels stay
 	// valid for break; a labelled continue on it is not supported).
